@@ -88,6 +88,16 @@ class StoreRecorder(object):
     def key(k):
         return 'k%d' % k
 
+    def keyarg(self, c, o):
+        """the keys handed to popkeys: a list, a one-shot iterator, or - when every resident key is named - the cache's own keys()"""
+        keys = [self.key(k) for k in o['keys']]
+        how = o.get('how', 'list')
+        if how == 'iter':
+            return iter(keys)
+        if how == 'own' and sorted(keys) == sorted(dict.keys(c)):
+            return c.keys()
+        return keys
+
     def V(self, v):
         return None if (self.nonev and isinstance(v, int) and v % 10 == 2) else v
 
@@ -185,9 +195,9 @@ class StoreRecorder(object):
                     e['rk'] = int(rk[1:]) if isinstance(rk, str) and rk[1:].isdigit() else -1
                     e['ret'] = self.unV(rv, e['rk'])
                 elif op == 'mpopkeys':
-                    e['ret'] = enc_seq([self.unV(x, k) for x, k in zip(c.popkeys([K(k) for k in o['keys']]), o['keys'])])
+                    e['ret'] = enc_seq([self.unV(x, k) for x, k in zip(c.popkeys(self.keyarg(c, o)), o['keys'])])
                 elif op == 'mpopkeysd':
-                    e['ret'] = enc_seq([self.unV(x, k) for x, k in zip(c.popkeys([K(k) for k in o['keys']], 77), o['keys'])])
+                    e['ret'] = enc_seq([self.unV(x, k) for x, k in zip(c.popkeys(self.keyarg(c, o), 77), o['keys'])])
                 elif op == 'aclear':
                     self.handles[o['x'] - 1][1].clear()
                 elif op == 'aupdate':
@@ -305,6 +315,7 @@ def random_ops(rng, n):
             o.update({'k': 1, 'v': 10 + rng.randint(1, 3), 'k2': 2, 'v2': 20 + rng.randint(1, 3)})
         if op in ('mpopkeys', 'mpopkeysd'):
             o['keys'] = rng.choice([[1], [2], [1, 2], [2, 3], [2, 1], [1, 1], [3, 1, 2]])
+            o['how'] = rng.choice(['list', 'iter', 'iter', 'own'])
         if op == 'mupdate':
             o.update({'k': 1, 'v': 10 + rng.randint(1, 3), 'k2': 2, 'v2': 20 + rng.randint(1, 3)})
         if op in ('loadk', 'dumpk'):
